@@ -19,6 +19,24 @@ SIZE = {  # (tlc scripts, seeded scripts, converge runs, intro attempts)
 }
 
 
+def drive(res, prop, cmd, work):
+    """Runs the harness.  The real node lives inside the harness process: if that process dies with a Go panic whose stack is in
+    the repository's code, the node crashed on the last message sent - a verdict, not an infrastructure failure."""
+    p = vlib.run(cmd, timeout=3000, check=False)
+    if p.returncode == 0:
+        return False
+    out = p.stdout or ""
+    if p.returncode == 2 and ("panic:" in out or "fatal error:" in out) and "github.com/skycoin/skycoin/src/" in out:
+        sent = [l for l in out.splitlines() if l.startswith("SENDING ")]
+        last = sent[-1][8:] if sent else "?"
+        trace = "\n".join(l for l in out.splitlines() if "panic" in l or "skycoin/src/" in l)[:1500]
+        sig = "sync:node-crashed"
+        rp = vlib.save_replay(work, "%s_crash.json" % prop, {"engine": "sync", "signature": sig, "last_message_sent": last, "panic": trace})
+        res.mismatch(prop, sig, "the node process died while handling a peer message (last sent: %s): %s" % (last[:120], trace[:300].replace("\n", " | ")), rp)
+        return True
+    raise Infra("harness failed (%d): %s\n%s" % (p.returncode, " ".join(cmd)[:200], out[-1500:]))
+
+
 def run(res, prop, tier, seed, work, replay=None):
     res.level = "model_checking"
     mc = vlib.model_check(SPEC, "MCSync", "MCSync.cfg", os.path.join(work, "mc"), timeout=900)
@@ -37,20 +55,25 @@ def run(res, prop, tier, seed, work, replay=None):
         with open(sp, "w") as fh:
             json.dump(scripts, fh)
         part = os.path.join(work, "sync.ndjson")
-        vlib.run([binary, part, str(seed), str(nseed), "sync", sp], timeout=3000)
+        crashed = drive(res, prop, [binary, part, str(seed), str(nseed), "sync", sp], work)
         part2 = os.path.join(work, "conv.ndjson")
-        vlib.run([binary, part2, str(seed), str(nconv), "converge"], timeout=3000)
+        crashed = crashed or drive(res, prop, [binary, part2, str(seed), str(nconv), "converge"], work)
+        for x in (part, part2):
+            if not os.path.exists(x):
+                open(x, "w").close()
         with open(recs, "a") as fh:
             fh.write(open(part).read() + open(part2).read())
     else:
         part = os.path.join(work, "intro.ndjson")
-        vlib.run([binary, part, str(seed), str(nintro), "intro"], timeout=3000)
+        crashed = drive(res, prop, [binary, part, str(seed), str(nintro), "intro"], work)
         with open(recs, "a") as fh:
             fh.write(open(part).read())
     all_recs = vlib.read_ndjson(recs)
-    if prop == "C33" and not any(r["fn"] == "introduced" and any(m["id"] == "GETB" for m in r["sent"]) for r in all_recs):
+    if crashed:
+        pass   # the node died: the records up to that point are still checked, the crash itself is the verdict
+    elif prop == "C33" and not any(r["fn"] == "introduced" and any(m["id"] == "GETB" for m in r["sent"]) for r in all_recs):
         raise Infra("the node never accepted the harness's proper introduction: the scripts cannot be driven")
-    if prop == "C25" and not any(r["fn"] == "intro" and any(m["id"] == "GETB" for m in r["sent"]) for r in all_recs):
+    elif prop == "C25" and not any(r["fn"] == "intro" and any(m["id"] == "GETB" for m in r["sent"]) for r in all_recs):
         raise Infra("no introduction was accepted at all: the decision table cannot be observed")
     st, mism = vlib.validate_records(SPEC, "SyncRecords", "SyncRecords.cfg", work, recs, chunk=20000, with_reason=True)
     for i, (r, parts) in enumerate(mism):
